@@ -471,7 +471,15 @@ func c20RunCase(out *workerOut, r *Rand, fam string, idx int, root, tier string)
 		cs.Files["zz-broken/.git/HEAD"] = "ref: refs/heads/main\n"
 		cs.Files["zz-broken/.github/actionlint.yaml"] = r.Pick([]string{"self-hosted-runner: [unclosed\n", "self-hosted-runner:\n  labels: 42\n", "paths:\n  '[':\n    ignore: [x]\n", "\t- not yaml\n"})
 		cs.Files["zz-broken/.github/workflows/b.yml"] = "on: push\njobs:\n  j:\n    runs-on: ubuntu-latest\n    steps:\n      - run: echo b\n"
-		cs.Lint = append(cs.Lint, "zz-broken/.github/workflows/b.yml")
+		switch idx % 3 {
+		case 0: // the project of the last file cannot be resolved
+			cs.Lint = append(cs.Lint, "zz-broken/.github/workflows/b.yml")
+		case 1: // the last file does not exist
+			cs.Lint = append(cs.Lint, ".github/workflows/zz-missing.yml")
+		default: // the last "file" is a directory
+			cs.Files[".github/workflows/zz-dir.yml/keep"] = "x\n"
+			cs.Lint = append(cs.Lint, ".github/workflows/zz-dir.yml")
+		}
 	default:
 		cs = c20Gen(r, nil, r.Range(1, 3), 5, 8)
 	}
@@ -567,7 +575,7 @@ func c20RunCase(out *workerOut, r *Rand, fam string, idx int, root, tier string)
 	}
 	if base == "late-error" {
 		if lerr == nil {
-			out.viol(idx, "C20:unloadable-configuration-not-fatal", "the configuration of the last file's repository cannot be loaded but LintFiles returned results", detail(nil))
+			out.viol(idx, "C20:late-file-error-not-fatal", "the last file of the run cannot be linted at all (unloadable repository configuration, missing file or directory) but LintFiles returned results", detail(nil))
 		} else {
 			out.nontrivial(fmt.Sprintf("%s|%d|fatal", fam, idx))
 			out.count("late_errors_observed", 1)
